@@ -61,9 +61,21 @@ const (
 	ddGarbage
 	ddAbort
 	ddTooLarge
+	ddHollow // frames whose protobuf length fields announce more dial data than the frame carries
 )
 
-var ddNames = []string{"correct", "short", "tiny", "varied", "garbage", "abort", "too-large-message"}
+var ddNames = []string{"correct", "short", "tiny", "varied", "garbage", "abort", "too-large-message", "hollow"}
+
+// stages at which the client resets the REQUEST stream (besides the dial-data scripts that abort)
+const (
+	resetNever         = iota
+	resetAtNonce       // when the dial-back nonce arrives, before the dial-back is answered (the server's response write fails)
+	resetAfterDialBack // right after the dial-back was answered (races with the response write)
+	resetAfterRequest  // after the whole request was written (and partHold)
+	resetAfterDialData // after the write that completed the dial data, before the response is read
+)
+
+var resetNames = []string{"never", "at-nonce", "after-dial-back-answer", "after-request", "after-dial-data"}
 
 type ddPlan struct {
 	mode       int
@@ -75,6 +87,8 @@ type ddPlan struct {
 	holdBefore time.Duration
 	holdMid    time.Duration
 	after      int // short/tiny: 0 keep reading, 1 CloseWrite then read, 2 Reset; abort: 0/1 Close, 2 Reset
+	// hollow: sizeA = announced data length, sizeB = bytes really carried, exact = the outer (oneof) length is
+	// consistent with the frame (only the data length lies)
 }
 
 func (p ddPlan) String() string {
@@ -90,6 +104,7 @@ type reqPlan struct {
 	dd       ddPlan
 	dbHold   time.Duration // dial-back handler: pause before answering
 	dbReply  int           // 0 answer DialBackResponse, 1 reset, 2 close without answer
+	resetAt  int           // stage at which the client resets the request stream
 }
 
 // ---- records -------------------------------------------------------------------------------
@@ -135,6 +150,18 @@ type reqRec struct {
 	nonceSeen  bool
 	nonceAt    time.Duration
 	nonceStamp uint64
+
+	stream network.Stream
+}
+
+// clientReset resets the request stream from whatever task is running (request task or dial-back handler).
+func (w *world) clientReset(r *reqRec) {
+	if r.ended || r.stream == nil {
+		return
+	}
+	w.o.Fault("request-reset-" + resetNames[r.plan.resetAt])
+	r.end("client-reset")
+	r.stream.Reset()
 }
 
 func (r *reqRec) end(kind string) {
@@ -199,6 +226,21 @@ func ddFrame(n int) []byte {
 	return frame(mustMarshal(&pb.Message{Msg: &pb.Message_DialDataResponse{DialDataResponse: &pb.DialDataResponse{Data: data}}}))
 }
 
+// hollowFrame is a DialDataResponse frame that ANNOUNCES declared data bytes in its protobuf headers but carries
+// only payload of them: tag(4,bytes) len | tag(1,bytes) len(declared) | payload.
+func hollowFrame(declared, payload int, outerConsistent bool) []byte {
+	inner := binary.AppendUvarint([]byte{0x0a}, uint64(declared))
+	for i := 0; i < payload; i++ {
+		inner = append(inner, byte(i))
+	}
+	claim := len(inner)
+	if !outerConsistent {
+		claim = len(inner) - payload + declared
+	}
+	msg := binary.AppendUvarint([]byte{0x22}, uint64(claim))
+	return frame(append(msg, inner...))
+}
+
 func garbageFrame(msgLen int) []byte {
 	msg := make([]byte, msgLen)
 	for i := range msg {
@@ -245,6 +287,7 @@ func (w *world) doRequest(r *reqRec) {
 		return
 	}
 	s.SetDeadline(time.Now().Add(clientDeadline))
+	r.stream = s
 
 	addrs := make([][]byte, len(r.plan.entries))
 	for i, e := range r.plan.entries {
@@ -275,6 +318,11 @@ func (w *world) doRequest(r *reqRec) {
 	if err != nil {
 		r.end("write-failed")
 		s.Reset()
+		return
+	}
+	if r.plan.resetAt == resetAfterRequest {
+		simrt.TimeSleep(r.plan.partHold)
+		w.clientReset(r)
 		return
 	}
 
@@ -395,6 +443,13 @@ func (w *world) sendDialData(r *reqRec, s network.Stream) bool {
 		}
 		steps = append(steps, dd(8187+p.sizeB)) // message of more than 8192 bytes
 		fill(n, 4096, false)
+	case ddHollow:
+		// as many frames as a server that believes the announced lengths would need; credited with what is
+		// really written (the whole frame)
+		f := hollowFrame(p.sizeA, p.sizeB, p.exact)
+		for announced := 0; announced < n; announced += p.sizeA {
+			steps = append(steps, step{f, len(f)})
+		}
 	}
 
 	if p.mode != ddCorrect {
@@ -441,6 +496,10 @@ func (w *world) sendDialData(r *reqRec, s network.Stream) bool {
 		}
 		return true
 	}
+	if r.plan.resetAt == resetAfterDialData {
+		w.clientReset(r)
+		return true
+	}
 	return false
 }
 
@@ -468,6 +527,9 @@ func (w *world) dialBackHandler(ci int) network.StreamHandler {
 				r.nonceSeen, r.nonceAt, r.nonceStamp = true, ev.at, ev.stamp
 			}
 			plan = r.plan
+			if plan.resetAt == resetAtNonce {
+				w.clientReset(r)
+			}
 		}
 		if plan != nil && plan.dbHold > 0 {
 			simrt.TimeSleep(plan.dbHold)
@@ -492,6 +554,9 @@ func (w *world) dialBackHandler(ci int) network.StreamHandler {
 				return
 			}
 			s.Close()
+			if plan != nil && plan.resetAt == resetAfterDialBack {
+				w.clientReset(w.byNonce[ev.nonce])
+			}
 		}
 	}
 }
